@@ -73,3 +73,18 @@ Proof.
   destruct C03_witness_premises as [A [B C]].
   exact (bottom_up_leaves_tasks_up_to_date genx (fun _ => True) ordx RCx OCx Px (fun _ _ v => enc v) HSx HWFx HWOx HReflx HReflOx 0 50 hy editsy [1] [SRequire 0] A B C).
 Qed.
+(* ... and the complete form: the outputs equal those of a from-scratch build in the current state *)
+Lemma C03_witness_complete_instance :
+  match session_bottom_up RCx OCx Px 50 (new_session wy1) [1] with
+  | Done _ w' =>
+      (forall t, In t (roots [SRequire 0]) -> get_task_output w' t <> None) ->
+      let ra := run_session RCx OCx Px 0 50 (new_session w') [SRequire 0] in
+      let rb := run_session RCx OCx Px 0 50 (new_session (Sim.fresh_of w')) [SRequire 0] in
+      execs (rev (trace (snd ra))) = [] /\ fst ra = fst rb /\ Forall Sim.is_done (fst rb) /\ forall r, get_content (snd ra) r = get_content (snd rb) r
+  | Abort _ _ => False
+  | OutOfFuel => True
+  end.
+Proof.
+  destruct C03_witness_premises as [A [B C]].
+  exact (bottom_up_then_require_equals_scratch genx (fun _ => True) ordx RCx OCx Px (fun _ _ v => enc v) HSx HWFx HWOx HReflx HReflOx 0 HCx HWx HOCx 50 50 hy editsy [1] [SRequire 0] A B C C).
+Qed.
